@@ -23,7 +23,7 @@ macro_rules! impl_add_assign_match_arms {
         I16, "i16";
         I32, "i32";
         I64, "i64";
-        U128, "u128";
+        I128, "i128";
         F32, "f32"; 
         F64, "f64" ;
         C64, "complex";
@@ -66,7 +66,7 @@ pub fn add_assign_math_fxn(sink: Value, source: Value) -> MResult<Box<dyn MechFu
     I16, "i16";
     I32, "i32";
     I64, "i64";
-    U128, "u128";
+    I128, "i128";
     F32, "f32";
     F64, "f64";
     R64, "rational";
